@@ -629,6 +629,82 @@ pub fn step_strategy() -> BoxedStrategy<Step> {
     .boxed()
 }
 
+
+/// Account names of hundreds to thousands of bytes: registration, login with the right and a wrong password, account
+/// information, renaming to another long name (the login clause of the property for names of any length).
+fn c17_long_names(c: &(u16, u16, u8), st: &mut Stats) -> CheckResult {
+    let srv = server()?;
+    let run = RUN.fetch_add(1, Ordering::SeqCst);
+    let cl = srv.client();
+    let pre = format!("c17L{}x{}q", std::process::id(), run);
+    let name = |len: u16, fill: char| -> String {
+        let mut s = pre.clone();
+        while s.len() < len as usize {
+            s.push(fill);
+        }
+        s
+    };
+    let (n1, n2) = (name(c.0, 'n'), name(c.1, 'm'));
+    let pw = format!("Secret-{pre}-alpha");
+    let mut jar = Jar::default();
+    let r = cl.json(&mut jar, "POST", "/users/register", &json!({"username": n1, "password": pw}))?;
+    if r.status != 200 {
+        // a service may refuse long names: then nothing of the account may exist
+        let mut j2 = Jar::default();
+        let l = cl.json(&mut j2, "POST", "/users/login", &json!({"username": n1, "password": pw}))?;
+        if (200..300).contains(&l.status) {
+            return Err(format!("registration of a {}-byte name was refused with {} but the login succeeds", n1.len(), r.status));
+        }
+        st.label("long-name:refused");
+        return Ok(Outcome::Ok);
+    }
+    let mut outcome = Outcome::Ok;
+    let mut login = |nm: &str, what: &str, jar: &mut Jar| -> Result<Option<Outcome>, String> {
+        let wrong = cl.json(&mut Jar::default(), "POST", "/users/login", &json!({"username": nm, "password": format!("{pw}x")}))?;
+        if (200..300).contains(&wrong.status) {
+            return Err(format!("{what}: a wrong password is accepted for an account with a {}-byte name", nm.len()));
+        }
+        let l = cl.json(jar, "POST", "/users/login", &json!({"username": nm, "password": pw}))?;
+        if (200..300).contains(&l.status) {
+            let i = cl.get(jar, "/users/info")?;
+            if i.status != 200 || i.json()?["username"] != json!(nm) {
+                return Err(format!("{what}: logged in with a {}-byte name but /users/info answers {} {}", nm.len(), i.status, i.text().chars().take(80).collect::<String>()));
+            }
+            return Ok(None);
+        }
+        // K9 probe: exactly the known signature (internal error on a login with the right password, name beyond 3800 bytes)
+        if l.status == 500 && nm.len() > 3800 {
+            return Ok(Some(crate::known::known_or_fail(
+                "K9-long-user-name-cannot-log-in",
+                format!("{what}: the account with a {}-byte name was registered (200) but the login with the password set answers {} {}", nm.len(), l.status, l.text().chars().take(80).collect::<String>()),
+            )?));
+        }
+        Err(format!("{what}: the login with the password most recently set answers {} {} (name of {} bytes)", l.status, l.text().chars().take(80).collect::<String>(), nm.len()))
+    };
+    let mut j = Jar::default();
+    if let Some(o) = login(&n1, "after registration", &mut j)? {
+        outcome = o;
+    } else if c.2 % 2 == 0 {
+        // rename to the second long name and log in again
+        let u = cl.json(&mut j, "PUT", "/users/update", &json!({"username": n2, "password": pw}))?;
+        if u.status == 200 {
+            let mut j3 = Jar::default();
+            if let Some(o) = login(&n2, "after renaming", &mut j3)? {
+                outcome = o;
+            }
+            let old = cl.json(&mut Jar::default(), "POST", "/users/login", &json!({"username": n1, "password": pw}))?;
+            if (200..300).contains(&old.status) {
+                return Err("after renaming, the old long name still logs in".into());
+            }
+            let _ = cl.delete(&mut j3, "/users/delete");
+        }
+    }
+    let _ = cl.delete(&mut j, "/users/delete");
+    st.label(if c.0 > 4000 || c.1 > 4000 { "long-name:>4000 bytes" } else { "long-name:<=4000 bytes" });
+    st.nontrivial(stable_hash(c), || json!({"name_bytes": [n1.len(), n2.len()]}));
+    Ok(outcome)
+}
+
 pub fn c17(tier: Tier) -> PropSpec {
     PropSpec {
         id: "C17",
@@ -682,6 +758,13 @@ pub fn c17(tier: Tier) -> PropSpec {
             c17_check,
         ),
         crate::props::races::paused_part(tier),
-        crate::props::races::two_session_part(tier)],
+        crate::props::races::two_session_part(tier),
+        Part::with_shrink(
+            "long-names",
+            tier.pick(32, 320),
+            10,
+            || (prop_oneof![1 => 60u16..300, 2 => 3000u16..4000, 2 => 4001u16..4300, 1 => 6000u16..9000], prop_oneof![1 => 60u16..300, 1 => 3900u16..4300], any::<u8>()).boxed(),
+            c17_long_names,
+        )],
     }
 }
